@@ -3,8 +3,8 @@
 From Coq Require Import ZArith NArith PeanoNat List Bool Lia ZifyBool ZifyNat ZifyN String.
 From Trion Require Import Text.Types Expr.I64 Expr.EvalModel Expr.Denote Expr.C08Sound Arm.Instr Arm.DisplayModel Arm.AsmStmtModel Arm.EncodeModel
   Mem.MapModel Mem.DictSpec Mem.MapProofs Mem.MapLemmas
-  Asm.CtxModel Asm.SegProofs Asm.LayoutSpec Asm.LayoutEval Asm.LayoutInstr Asm.LayoutDict Asm.ScopeProofs Asm.LayoutProofs Asm.LayoutSim
-  Asm.Ctx06Proofs Asm.LayoutStep.
+  Asm.CtxModel Asm.SegProofs Asm.LayoutSpec Asm.LayoutEval Asm.LayoutInstr Asm.LayoutInstrD Asm.LayoutDict Asm.ScopeProofs Asm.LayoutProofs Asm.LayoutSim
+  Asm.LayoutStage Asm.Ctx06Proofs Asm.LayoutStep.
 From Trion Require Text.ParseModel.
 Import ListNotations.
 Open Scope N_scope.
@@ -48,27 +48,34 @@ Qed.
 Definition class_from (fs : str -> option (list N)) (E : env) (s : p1) (els : list element) : Prop :=
   forall pre e post s0, els = pre ++ e :: post -> pass1 fs s (map e_val pre) = Some s0 -> stmt_ok E (p_env s0) (e_val e).
 
-Lemma sim_run dbg fs inc E : inc_ok inc -> forall els st s st' s',
-  Sim E st (p_cur s) (p_env s) (gdict E (p_items s)) -> class_from fs E s els ->
+(* the wider class (LayoutStep.stmt_okx); fs = the files the context reads, fsr = the files the reference reads *)
+Definition class_fromx (fs fsr : str -> option (list N)) (path : str) (E : env) (s : p1) (els : list element) : Prop :=
+  forall pre e post s0, els = pre ++ e :: post -> pass1 fsr s (map e_val pre) = Some s0 -> stmt_okx fs fsr path E (p_env s0) (e_val e).
+
+Lemma class_from_x fs path E s els : class_from fs E s els -> class_fromx fs fs path E s els.
+Proof. intros H pre e post s0 Hl Hp. apply stmt_ok_x. eapply H; eauto. Qed.
+
+Lemma sim_run dbg fs fsr inc E path ps : inc_ok inc -> forall els st s st' s',
+  Sim E st (p_cur s) (p_env s) (gdict E (p_items s)) -> path_stack st = path :: ps -> class_fromx fs fsr path E s els ->
   run_items dbg fs inc (map Text.ParseModel.IOk els) st = Ret None st' -> errors st' = [] ->
-  pass1 fs s (map e_val els) = Some s' -> env_le (p_env s') E ->
+  pass1 fsr s (map e_val els) = Some s' -> env_le (p_env s') E ->
   (forall a it, In (a, it) (p_items s') -> pass2_item E a it <> None) ->
   Sim E st' (p_cur s') (p_env s') (gdict E (p_items s')).
 Proof.
-  intros IO. induction els as [|e r IH]; intros st s st' s' HSim HC HR HZ HP HE H2.
+  intros IO. induction els as [|e r IH]; intros st s st' s' HSim EPS HC HR HZ HP HE H2.
   - cbn in HR, HP. inversion HR; inversion HP; subst. exact HSim.
   - cbn [map run_items] in HR. cbn [map pass1] in HP. unfold CtxModel.bind in HR.
     destruct (step dbg fs inc st e) as [x st1| |] eqn:S1; try discriminate. destruct x; [discriminate|].
-    destruct (pass1_step fs s (e_val e)) as [s1|] eqn:P1; [|discriminate].
+    destruct (pass1_step fsr s (e_val e)) as [s1|] eqn:P1; [|discriminate].
     pose proof (run_items_spec dbg fs inc _ IO _ _ _ HR) as (EX & _).
     assert (Z1 : errors st1 = []). { destruct EX as (l & EX). rewrite EX in HZ. destruct l; [exact HZ|discriminate]. }
     destruct (pass1_mono _ _ _ _ HP) as (M1 & M2).
-    assert (S' : Sim E st1 (p_cur s1) (p_env s1) (gdict E (p_items s1))).
+    assert (S' : Sim E st1 (p_cur s1) (p_env s1) (gdict E (p_items s1)) /\ path_stack st1 = path_stack st).
     { pose proof (HC [] e r s eq_refl eq_refl) as OK0. destruct s as [cur ek items].
-      apply (sim_step dbg fs inc E st cur ek items e st1 s1 HSim OK0 S1 Z1 P1).
+      apply (sim_step dbg fs fsr inc E st cur ek items e st1 s1 path ps HSim EPS OK0 S1 Z1 P1).
       - intros m w Hm. apply HE, M1, Hm.
       - intros a it Hi. apply H2, M2, Hi. }
-    apply (IH st1 s1 st' s'); auto.
+    destruct S' as (S' & EPS'). apply (IH st1 s1 st' s'); auto; [congruence|].
     intros pre e0 post s0 Hl Hp. apply (HC (e :: pre) e0 post s0); [rewrite Hl; reflexivity|]. cbn [map pass1]. rewrite P1. exact Hp.
 Qed.
 
@@ -200,29 +207,26 @@ Proof.
   { destruct cur as [c|]; [destruct C as (sg & EA & HI & _); rewrite EA; exact HI|rewrite C; exact I]. }
   destruct t as [ai [|]|d [|]| |]; cbn [PendG] in Pt; try contradiction.
   - (* instruction *)
-    destruct Pt as (a0 & a1 & v & iF & sF & nF & bF & EAst & HB & F0 & Dv & AF & EF & AB).
+    destruct Pt as (args & pos & a0 & a1 & iF & sF & nF & bF & EAst & EPo & N0 & SG & AF & EF & AB).
     pose proof (enc_bytes_size _ _ _ EF) as (_ & LF). pose proof (assemble_args_isz _ _ _ _ _ _ _ AF) as IF.
     cbn [run_task] in HR. unfold instr_assemble in HR. rewrite EAst in HR. cbn [a_args] in HR.
-    destruct (first_panic st [a1]); [dh|].
-    destruct (assemble_args (instr_ev st) false (ai_addr ai) (ai_instr ai) (mkAst [a1] 0)) as [i a2|cause a2|dg a2|] eqn:AM.
+    destruct (first_panic st (AsmStmtModel.set_nth pos a1 args)); [dh|].
+    pose proof (assemble_args_swap _ _ _ _ _ _ _ a1 _ _ EPo N0 SG AF) as AF1.
+    destruct (assemble_args (instr_ev st) false (ai_addr ai) (ai_instr ai) (mkAst (AsmStmtModel.set_nth pos a1 args) 0)) as [i a2|cause a2|dg a2|] eqn:AM.
     + cbn [CtxModel.bind] in HR. unfold write_instr in HR. cbn [ai_instr ai_file ai_line ai_col ai_addr] in HR.
       assert (i = iF).
-      { apply (branch_staged (instr_ev st) (final_ev E) false false (ai_addr ai) (ai_instr ai) a0 a1 i a2 iF sF v HB); [| |exact AM|exact AF].
-        - intros x Hx. pose proof (instr_ev_fwd E E st tbl p ps EL EP TE (env_le_refl E) _ _ _ Hx) as F1.
-          apply (fwd_const (rho E) a0 x v); [apply (fwd_trans _ a0 a1 _ F0 F1)|exact Dv].
-        - intros x Hx. apply (fwd_const (rho E) a0 x v); [apply final_ev_const; exact Hx|exact Dv]. }
+      { pose proof (assemble_args_mono _ _ false false _ _ _ _ _ (instr_ev_le E E st tbl p ps EL EP TE (env_le_refl E)) AM) as AM'.
+        rewrite AF1 in AM'. inversion AM'; reflexivity. }
       subst i. rewrite EF in HR.
       assert (Hsz : task_size (InstrTask ai false) = mlen bF) by (cbn [task_size]; unfold mlen; rewrite LF; congruence).
       assert (Hpos : 0 < mlen bF) by (unfold mlen; rewrite LF; destruct iF; cbn; lia).
       destruct (write_over dbg st (InstrTask ai false) (ai_addr ai) bF _ _ _ _ _ _ r st' R HAct Lt eq_refl Hsz Hpos HR HZ) as (-> & Rest).
       split; [reflexivity|]. split; [eapply simT_after_write; eauto|]. destruct Rest as (_ & _ & _ & _ & _ & _ & _ & LT & _). congruence.
-    + exfalso. destruct (assemble_args_defer _ _ _ _ _ _ _ AM) as (x & x' & sx & Ix & Ex & N1 & N2).
-      destruct Ix as [<-|[]].
-      eapply (instr_ev_defers E st tbl p ps EL EP TE); eauto.
-      apply den64_denZ in Dv. destruct Dv as (Dv & _). pose proof (F0 _ Dv) as D1.
-      intros m Hm. pose proof (denZ_idents _ _ _ D1 m Hm) as Hr. unfold rho in Hr.
-      change (AsmStmtModel.is_register m) with (CtxModel.is_register m) in Hr.
-      destruct (CtxModel.is_register m); [now left|right]. unfold lkE. destruct (env_get E m) as [w|]; [eauto|congruence].
+    + (* the table is final: the operand the statement kept evaluates as the original does in the reference *)
+      exfalso. destruct (assemble_args_defer_pos _ _ _ _ _ _ _ AM) as (pos' & x & x' & sx & EPo' & Nx & Ex & N1 & N2 & _).
+      rewrite EPo in EPo'. inversion EPo'; subst pos'. rewrite (nth_error_set_nth_eq a1 pos args a0 N0) in Nx. inversion Nx; subst x.
+      destruct (assemble_args_ok_complete _ _ _ _ _ _ _ _ _ EPo N0 AF) as (v & Ev).
+      rewrite (end_ev_le E st tbl p ps a1 v EL EP TE (SG _ Ev)) in Ex. inversion Ex; subst. congruence.
     + cbn [CtxModel.bind] in HR. inversion HR; subst. cbn [errors push_error_in set_errors] in HZ. discriminate HZ.
     + dh.
   - (* data *)
@@ -321,15 +325,25 @@ Proof. reflexivity. Qed.
 (* the class of programs: every statement (in the table pass 1 has reached before it) is in the class of LayoutStep.stmt_ok *)
 Definition C05_class (fs : str -> option (list N)) (E : env) (els : list element) : Prop := class_from fs E (mkP1 None [] []) els.
 
-Theorem layout_general fs path text els placed env regions :
+Definition C05_classx (fs fsr : str -> option (list N)) (path : str) (E : env) (els : list element) : Prop :=
+  class_fromx fs fsr path E (mkP1 None [] []) els.
+Lemma class_x fs path E els : C05_class fs E els -> C05_classx fs fs path E els.
+Proof. apply class_from_x. Qed.
+
+(* the reference reads a .dfile name relative to the directory of the root file, as the context does *)
+Definition rel_fs (fs : str -> option (list N)) (path : str) : str -> option (list N) := fun v => fs (resolve_path path v).
+Definition C05_classw (fs : str -> option (list N)) (path : str) (E : env) (els : list element) : Prop :=
+  C05_classx fs (rel_fs fs path) path E els.
+
+Theorem layout_generalx fs fsr path text els placed env regions :
   parse_source text = Parsed (map Text.ParseModel.IOk els) None ->
-  layout_spec fs (map e_val els) = Some (placed, env) ->
-  C05_class fs env els ->
+  layout_spec fsr (map e_val els) = Some (placed, env) ->
+  C05_classx fs fsr path env els ->
   pipeline fs path text = Done Success [] regions ->
   regions = image_of placed.
 Proof.
   intros HPa HL HC HPi.
-  unfold layout_spec in HL. destruct (pass1 fs (mkP1 None [] []) (map e_val els)) as [sF|] eqn:P1; [|discriminate].
+  unfold layout_spec in HL. destruct (pass1 fsr (mkP1 None [] []) (map e_val els)) as [sF|] eqn:P1; [|discriminate].
   destruct (pass2 (p_env sF) (rev (p_items sF))) as [pl|] eqn:P2; [|discriminate]. inversion HL; subst placed env. clear HL.
   set (E := p_env sF) in *.
   unfold pipeline, pipeline_gen, pipeline_state in HPi. unfold CtxModel.bind in HPi.
@@ -370,7 +384,7 @@ Proof.
     - intros x. unfold view. cbn. tauto. }
   assert (H2 : forall a it, In (a, it) (p_items sF) -> pass2_item E a it <> None).
   { intros a it Hi. apply (pass2_all E _ _ P2). apply in_rev in Hi. exact Hi. }
-  destruct (sim_run false fs _ E IO els st0 _ sta sF S0 HC RI Za P1 (env_le_refl E) H2) as (ts & ELT & HT).
+  destruct (sim_run false fs fsr _ E path [] IO els st0 _ sta sF S0 eq_refl HC RI Za P1 (env_le_refl E) H2) as (ts & ELT & HT).
   (* the tasks *)
   cbn [res_is_fatal] in LL. rewrite ELT in LL.
   assert (HB : SimT E stb (p_cur sF) E (gdict E (p_items sF)) [] /\ r' = None).
@@ -405,15 +419,23 @@ Proof.
     rewrite V2. transitivity (view stb x); [reflexivity|]. apply W. intros t [].
 Qed.
 
+Theorem layout_general fs path text els placed env regions :
+  parse_source text = Parsed (map Text.ParseModel.IOk els) None ->
+  layout_spec fs (map e_val els) = Some (placed, env) ->
+  C05_class fs env els ->
+  pipeline fs path text = Done Success [] regions ->
+  regions = image_of placed.
+Proof. intros HPa HL HC. apply (layout_generalx fs fs path text els placed env regions HPa HL (class_x _ path _ _ HC)). Qed.
+
 (* ------------------------------------------------------------------ labels *)
 (* the table of the context at the end of the statement loop is the reference's final table *)
-Theorem labels_general fs inc path els placed env st' : inc_ok inc ->
-  layout_spec fs (map e_val els) = Some (placed, env) -> C05_class fs env els ->
+Theorem labels_generalx fs fsr inc path els placed env st' : inc_ok inc ->
+  layout_spec fsr (map e_val els) = Some (placed, env) -> C05_classx fs fsr path env els ->
   run_items false fs inc (map Text.ParseModel.IOk els) (fst (enter_file init_state path)) = Ret None st' -> errors st' = [] ->
   forall n, get_constant st' n RLocal = Some (match env_get env n with Some v => Found v | None => NotFound end).
 Proof.
   intros IO HL HC RI Za n.
-  unfold layout_spec in HL. destruct (pass1 fs (mkP1 None [] []) (map e_val els)) as [sF|] eqn:P1; [|discriminate].
+  unfold layout_spec in HL. destruct (pass1 fsr (mkP1 None [] []) (map e_val els)) as [sF|] eqn:P1; [|discriminate].
   destruct (pass2 (p_env sF) (rev (p_items sF))) as [pl|] eqn:P2; [|discriminate]. inversion HL; subst placed env. clear HL.
   set (E := p_env sF) in *.
   set (st0 := mkState [] Inactive [] (Some []) [] (Some []) [] [path] path).
@@ -427,10 +449,16 @@ Proof.
     - intros x. unfold view. cbn. tauto. }
   assert (H2 : forall a it, In (a, it) (p_items sF) -> pass2_item E a it <> None).
   { intros a it Hi. apply (pass2_all E _ _ P2). apply in_rev in Hi. exact Hi. }
-  destruct (sim_run false fs _ E IO els st0 _ st' sF S0 HC RI Za P1 (env_le_refl E) H2) as (ts & ELT & HT).
+  destruct (sim_run false fs fsr _ E path [] IO els st0 _ st' sF S0 eq_refl HC RI Za P1 (env_le_refl E) H2) as (ts & ELT & HT).
   destruct HT as [_ (tbl & p & ps & EL & EP & TE) _ _ _ _ _ _ _ _ _].
   unfold get_constant. cbn [realm_table]. rewrite EL. unfold lookup_of. rewrite (TE n). unfold E. destruct (env_get (p_env sF) n); reflexivity.
 Qed.
+
+Theorem labels_general fs inc path els placed env st' : inc_ok inc ->
+  layout_spec fs (map e_val els) = Some (placed, env) -> C05_class fs env els ->
+  run_items false fs inc (map Text.ParseModel.IOk els) (fst (enter_file init_state path)) = Ret None st' -> errors st' = [] ->
+  forall n, get_constant st' n RLocal = Some (match env_get env n with Some v => Found v | None => NotFound end).
+Proof. intros IO HL HC. apply (labels_generalx fs fs inc path els placed env st' IO HL (class_x _ path _ _ HC)). Qed.
 
 (* in the reference a label is the address of the item placed next *)
 Lemma place_items s sz it s' : place s sz it = Some s' -> exists c, p_cur s = Some c /\ p_items s' = (c, it) :: p_items s.
